@@ -825,6 +825,28 @@ func runRouting(tier string, seed uint64, idx int) core.Result {
 				time.Sleep(10 * time.Millisecond)
 			}
 		}
+		// every shard id of an assignment is fresh, so one correct pass proves that the client has taken it; from here
+		// on every request must go to the owner, every time (a stale overlapping range would win some of the lookups)
+		for pass := 0; pass < 3 && r.Violations() == 0; pass++ {
+			for _, k := range probes {
+				opN++
+				id := fmt.Sprintf("route-%d", opN)
+				var res oxia.PutResult
+				select {
+				case res = <-cl.Put(k, []byte(id)):
+				case <-time.After(10 * time.Second):
+					res.Err = errors.New("no result in 10 s")
+				}
+				_, _, shardOf, _, _ := srv.Snapshot()
+				got, arrived := shardOf[id]
+				own := fakeoxia.Owner(cur, k)
+				if res.Err != nil || !arrived || len(own) != 1 || got != own[0] {
+					r.Violate("C18/client-routes-key-to-a-shard-that-does-not-own-it/after-taking-the-assignment", fmt.Sprintf("assignment #%d (%d shards): key %q (owner: shard %v) was sent to shard %d (still assigned: %v), err %v", u, len(cur), k, own, got, valid[got], res.Err), nil)
+					break
+				}
+				r.Count("probes_routed", 1)
+			}
+		}
 	}
 	if r.Get("updates_overlapping_two_or_more") > 0 {
 		r.Nontrivial()
